@@ -57,7 +57,7 @@ class Runner:
     def __init__(self, case, budget_fn=None):
         self.case = case
         self.env = core_env.Env(case["kinds"], case["lens"], case["script"], case["max_len"],
-                                case.get("volume"), case.get("mute"))
+                                case.get("volume"), case.get("mute"), case.get("styles", ()))
         self.env.data_dir = tempfile.mkdtemp(prefix="verif-core-")
         self.core, self._restore = core_env.make_core(self.env)
         self.budget_fn = budget_fn or (lambda n: 60 * n + 400)
